@@ -149,6 +149,9 @@ func (s *Sim) ReplayLeftover() int {
 	return len(s.replay) - s.rpos
 }
 
+// CurThreadID is the id of the simulated thread that is running.
+func (s *Sim) CurThreadID() int { return s.cur.ID }
+
 // ResetOp resets the per-operation step budget.
 func (s *Sim) ResetOp() {
 	s.TotalSteps += s.Steps
